@@ -129,16 +129,16 @@ theorem all_inb {α : Type} (l : List α) (n : Nat) (h : l.length = n) :
 /-- every chunking, on every reusable hasher -/
 theorem digest_chunks (p : Sha) (hp : Reusable p) (chunks : List (List UInt8)) (hlen : chunks.flatten.length < 2 ^ 61) :
     (finalize (chunks.foldl update p)).1 = Spec.sha256 chunks.flatten ∧ Reusable (finalize (chunks.foldl update p)).2 := by
-  have hI := foldl_update_inv transformOK chunks [] p ((inv_nil_iff p).mpr hp) (by rw [List.length_nil]; omega)
+  have hI := foldl_update_inv transformOK chunks [] p ((inv_nil_iff p).mpr hp)
   rw [List.nil_append] at hI
   have := finalize_spec transformOK _ _ hI hlen
   exact ⟨this.1, (inv_nil_iff _).mp this.2⟩
 
-/-- the same from any mid-stream state (`Inv m p`: `p` has absorbed `m`), up to the capacity of the 64-bit byte counter -/
-theorem digest_chunks_from (m : List UInt8) (p : Sha) (hI : Inv m p) (chunks : List (List UInt8))
-    (hlen : m.length + chunks.flatten.length < 2 ^ 64) :
+/-- the same from any mid-stream state (`Inv m p`: `p` has absorbed `m`), for ANY length (beyond 2^64 bytes the 64-bit byte
+counter wraps; position and length field only depend on it modulo 2^64) -/
+theorem digest_chunks_from (m : List UInt8) (p : Sha) (hI : Inv m p) (chunks : List (List UInt8)) :
     (finalize (chunks.foldl update p)).1 = Spec.sha256 (m ++ chunks.flatten) ∧ Reusable (finalize (chunks.foldl update p)).2 := by
-  have hI' := foldl_update_inv transformOK chunks m p hI hlen
+  have hI' := foldl_update_inv transformOK chunks m p hI
   have := finalize_spec_all transformOK _ _ hI'
   exact ⟨this.1, (inv_nil_iff _).mp this.2⟩
 
